@@ -359,6 +359,7 @@ Record bare_facts (s : bytes) : Prop := mkBF {
   bf_date : c_date s = false;
   bf_int : c_int s = false;
   bf_bin : c_bin s = false;
+  bf_oct : c_oct s = false;
   bf_float : c_float s = false;
   bf_hex : c_hex s = false }.
 
@@ -370,6 +371,7 @@ Proof.
   destruct (c_date s) eqn:E3; [discriminate|].
   destruct (c_int s) eqn:E4; [discriminate|].
   destruct (c_bin s) eqn:E5; [discriminate|].
+  destruct (c_oct s) eqn:E5o; [discriminate|].
   destruct (c_float s) eqn:E6; [discriminate|].
   destruct (c_hex s) eqn:E7; [discriminate|].
   constructor; assumption.
@@ -455,6 +457,27 @@ Proof.
   rewrite E1, E2 in K. discriminate.
 Qed.
 
+Lemma lang_plus_cls : forall c s, lang (Plus (Cls c)) s -> all_in c s = true /\ (1 <= length s)%nat.
+Proof.
+  intros c s L. split.
+  - apply lang_alph in L. cbn [Plus alph] in L. eapply all_in_weaken; [|exact L].
+    intros x Hx. rewrite in_class_app in Hx. apply orb_true_iff in Hx. destruct Hx; assumption.
+  - apply lang_minlen in L. cbn [Plus minlen] in L. lia.
+Qed.
+
+Lemma oct_cls_sub : forall x, in_class [(48, 55)] x = true -> in_class yaml_cls_oct x = true.
+Proof. apply pointwise; vm_compute; reflexivity. Qed.
+
+(** YAML 1.2 octal `0o[0-7]+`: caught by the octal arm *)
+Lemma kill_oct : forall s, bare_facts s -> ~ lang re_oct12 s.
+Proof.
+  intros s B L. unfold re_oct12 in L. apply lang_cat_inv in L. destruct L as (s1 & s2 & -> & L1 & L2).
+  apply lang_lit in L1. subst s1. apply lang_plus_cls in L2. destruct L2 as [A Hl].
+  pose proof (bf_oct _ B) as K. unfold c_oct in K. cbn [app skipn starts_with length] in K.
+  rewrite !N.eqb_refl in K. cbn [andb] in K.
+  rewrite (all_in_weaken _ _ _ oct_cls_sub A) in K. rewrite !andb_true_r in K. apply Nat.ltb_ge in K. lia.
+Qed.
+
 (** every resolver word either contains a byte outside the safe class or is on the RESERVED list *)
 Definition word_handled (w : bytes) : bool := negb (all_in yaml_cls_safe w) || is_reserved w.
 
@@ -469,14 +492,14 @@ Qed.
 
 Ltac side := vm_compute; first [reflexivity | lia].
 
-Lemma bare_no_resolver : forall s, bare_facts s -> rmatch re_oct12 s = false ->
+Lemma bare_no_resolver : forall s, bare_facts s ->
   forall r, In r yaml_resolvers -> ~ lang r s.
 Proof.
-  intros s B O r I. unfold yaml_resolvers in I. cbn [In] in I.
+  intros s B r I. unfold yaml_resolvers in I. cbn [In] in I.
   destruct I as [<-|[<-|[<-|[<-|[<-|[<-|[<-|[<-|[<-|[<-|[<-|[<-|[<-|[<-|[]]]]]]]]]]]]]]].
   - apply kill_words. assumption.
   - eapply (kill_int re_int12 1); [side | side | lia | assumption].
-  - intro L. apply rmatch_lang in L. congruence.
+  - apply kill_oct. assumption.
   - eapply (kill_hex_plain _ 0); [side | side | side | lia | assumption].
   - eapply (kill_float re_float12 1 2 1); [side | side | lia | side | lia | side | lia | assumption].
   - unfold re_bin11. cbn [Seq]. eapply kill_bin; [side | side | assumption].
@@ -511,7 +534,8 @@ Proof.
   - inversion H; subst. rewrite N.eqb_refl. apply IH. reflexivity.
 Qed.
 
-Lemma reserved_words : is_reserved [] = true /\ is_reserved [45] = true /\ is_reserved [45; 45; 45] = true.
+Lemma reserved_words : is_reserved [] = true /\ is_reserved [45] = true /\ is_reserved [45; 45; 45] = true
+                       /\ is_reserved [46; 46; 46] = true.
 Proof. vm_compute. auto. Qed.
 
 Lemma safe_parts : forall x, in_class yaml_cls_safe x = true ->
@@ -525,9 +549,11 @@ Proof.
   apply orb_true_iff in H3. destruct H3 as [H3|H3]; [left; apply negb_true_iff; assumption | right; apply N.eqb_eq; assumption].
 Qed.
 
-Lemma bare_plain_syntax : forall s, bare_facts s -> beq s [46; 46; 46] = false -> plain_syntax s = true.
+Lemma bare_plain_syntax : forall s, bare_facts s -> plain_syntax s = true.
 Proof.
-  intros s B D. destruct reserved_words as (R0 & R1 & R3).
+  intros s B. destruct reserved_words as (R0 & R1 & R3 & R4).
+  assert (D : beq s [46; 46; 46] = false).
+  { destruct (beq s [46; 46; 46]) eqn:E; [|reflexivity]. apply beq_eq in E. subst. rewrite (bf_res _ B) in R4. discriminate. }
   pose proof (bf_safe s B) as A. rewrite all_in_forall in A.
   assert (F : forall x, In x s -> ns_char x = true /\ flow_ind x = false /\ (c_indicator x = false \/ x = 45) /\ x <> 58)
     by (intros x Hx; apply safe_parts, A, Hx).
@@ -545,9 +571,9 @@ Proof.
     rewrite (bf_res _ B) in R3. discriminate.
 Qed.
 
-Lemma p_yaml_bare_sound : forall s, bare_safe s = true -> known_yaml_bare s = false -> yaml_plain_ok s.
+Lemma p_yaml_bare_sound : forall s, bare_safe s = true -> yaml_plain_ok s.
 Proof.
-  intros s H K. apply bare_safe_inv in H. unfold known_yaml_bare in K. apply orb_false_iff in K. destruct K as [K1 K2].
+  intros s H. apply bare_safe_inv in H.
   split; [apply bare_plain_syntax; assumption | apply bare_no_resolver; assumption].
 Qed.
 
@@ -559,41 +585,24 @@ Proof.
     destruct (rmatch r s) eqn:E; [|reflexivity]. exfalso. apply (F r I). apply rmatch_lang. assumption.
 Qed.
 
-Lemma p_yaml_bare_refuted_octal :
-  exists s, bare_safe s = true /\ lang re_oct12 s /\ ~ yaml_plain_ok s.
-Proof.
-  exists [48; 111; 55]. split; [vm_compute; reflexivity|].
-  assert (L : lang re_oct12 [48; 111; 55]) by (apply rmatch_lang; vm_compute; reflexivity).
-  split; [assumption|]. intros [_ F]. apply (F re_oct12); [|assumption].
-  unfold yaml_resolvers. cbn [In]. auto.
-Qed.
-
-Lemma p_yaml_bare_refuted_docend :
-  exists s, bare_safe s = true /\ doc_marker s = true /\ ~ yaml_plain_ok s.
-Proof.
-  exists [46; 46; 46]. split; [vm_compute; reflexivity|]. split; [vm_compute; reflexivity|].
-  intros [P _]. vm_compute in P. discriminate.
-Qed.
-
 (* ================================================================== Part 3: TOML keys, quoted strings *)
 
 Lemma toml_bounded : cls_bounded toml_cls_bare = true.
 Proof. vm_compute. reflexivity. Qed.
 
-Lemma p_toml_bare_sound : forall s, bare_allowed s = true -> s <> [] -> toml_bare_key s.
+Lemma p_toml_bare_sound : forall s, bare_allowed s = true -> toml_bare_key s.
 Proof.
-  intros s H N. split; [assumption|]. unfold bare_allowed in H. rewrite all_in_forall in H.
+  intros s H. unfold bare_allowed in H. apply andb_true_iff in H. destruct H as [Hn H].
+  split; [intro E; subst; discriminate|]. rewrite all_in_forall in H.
   apply forallb_forall. intros x Hx. specialize (H x Hx).
   apply (pointwise toml_cls_bare toml_key_char toml_bounded); [vm_compute; reflexivity | exact H].
 Qed.
 
-Lemma p_toml_bare_refuted : exists s, bare_allowed s = true /\ ~ toml_bare_key s.
-Proof. exists []. split; [reflexivity|]. intros [N _]. apply N. reflexivity. Qed.
-
-(** the accepted keys are exactly the TOML bare keys and the empty one *)
+(** the accepted keys are exactly the TOML bare keys *)
 Lemma p_toml_bare_complete : forall s, toml_bare_key s -> bare_allowed s = true.
 Proof.
-  intros s [_ H]. unfold bare_allowed. apply all_in_forall. intros x Hx. rewrite forallb_forall in H. specialize (H x Hx).
+  intros s [Hn H]. unfold bare_allowed. apply andb_true_iff. split; [destruct s; [congruence | reflexivity]|].
+  apply all_in_forall. intros x Hx. rewrite forallb_forall in H. specialize (H x Hx).
   unfold toml_key_char in H.
   assert (B : x < 256) by (b2p; lia).
   assert (T : forallb (fun x => negb (toml_key_char x) || in_class toml_cls_bare x) byte_range = true) by (vm_compute; reflexivity).
@@ -631,11 +640,11 @@ Proof.
     rewrite Hh, Hl. cbn [orb]. unfold utf8_enc. apply N.ltb_lt in H5. rewrite H5. reflexivity.
 Qed.
 
-Lemma dq_str_escaped : forall d bad, dq_table_ok d bad = true ->
+Lemma dq_str_mapped : forall d f bad, dq_table_ok d f bad = true ->
   forall bs rest, Forall (fun b => b < 256 /\ bad b = false) bs ->
-    dq_str d (flat_map esc1 bs ++ 34 :: rest) = Some (bs, rest).
+    dq_str d (flat_map f bs ++ 34 :: rest) = Some (bs, rest).
 Proof.
-  intros d bad T. induction bs as [|b bs IH]; intros rest F.
+  intros d f bad T. induction bs as [|b bs IH]; intros rest F.
   - cbn. reflexivity.
   - inversion F as [|? ? [Hb Hbad] F']; subst. cbn [flat_map]. rewrite <- app_assoc.
     unfold dq_table_ok in T. rewrite forallb_forall in T. specialize (T b (in_byte_range b Hb)).
@@ -643,31 +652,50 @@ Proof.
     rewrite (dq_seq_read _ _ _ _ T), (IH rest F'). reflexivity.
 Qed.
 
-Lemma dq_read_escape : forall d bad, dq_table_ok d bad = true ->
+Lemma dq_read_escape : forall d bad, dq_table_ok d esc1 bad = true ->
   forall bs, Forall (fun b => b < 256 /\ bad b = false) bs ->
     exists out, escape bs = Some out /\ dq_read d out = Some bs.
 Proof.
   intros d bad T bs F. exists (escape_ref bs). split; [apply escape_is_ref|].
   unfold dq_read, escape_ref. change (34 =? 34) with true. cbv iota.
-  rewrite (dq_str_escaped d bad T bs [] F). reflexivity.
+  rewrite (dq_str_mapped d esc1 bad T bs [] F). reflexivity.
 Qed.
 
-Lemma toml_table : dq_table_ok toml_dialect toml_bad = true.
+Lemma toml_table_json : dq_table_ok toml_dialect esc1 toml_bad = true.
 Proof. vm_compute. reflexivity. Qed.
-Lemma python_table : dq_table_ok python_dialect no_bad = true.
+Lemma toml_table : dq_table_ok toml_dialect tesc1 no_bad = true.
 Proof. vm_compute. reflexivity. Qed.
-Lemma yaml_table : dq_table_ok yaml_dialect no_bad = true.
+Lemma python_table : dq_table_ok python_dialect esc1 no_bad = true.
+Proof. vm_compute. reflexivity. Qed.
+Lemma yaml_table : dq_table_ok yaml_dialect esc1 no_bad = true.
 Proof. vm_compute. reflexivity. Qed.
 
-Lemma p_toml_quoted_ok : forall bs, Forall (fun b => b < 256 /\ b <> 127) bs ->
-  exists out, escape bs = Some out /\ dq_read toml_dialect out = Some bs.
+Lemma trepl_app : forall a b, trepl (a ++ b) = trepl a ++ trepl b.
+Proof. intros. unfold trepl. apply flat_map_app. Qed.
+
+Lemma trepl_flat : forall bs, trepl (flat_map esc1 bs) = flat_map tesc1 bs.
 Proof.
-  intros bs F. apply (dq_read_escape _ _ toml_table). eapply Forall_impl; [|exact F].
-  intros b [H1 H2]. split; [assumption|]. unfold toml_bad. apply N.eqb_neq. assumption.
+  induction bs as [|b bs IH]; [reflexivity|]. cbn [flat_map]. rewrite trepl_app, IH. reflexivity.
 Qed.
 
-Lemma p_toml_quoted_refuted : exists bs out, escape bs = Some out /\ dq_read toml_dialect out = None.
-Proof. exists [127], (escape_ref [127]). split; [apply escape_is_ref | vm_compute; reflexivity]. Qed.
+Lemma quote_not_replaced : (34 =? toml_replaced) = false.
+Proof. vm_compute. reflexivity. Qed.
+
+(** the TOML escaper (JSON escaping + replacement) writes a TOML basic string for the same bytes *)
+Lemma p_toml_quoted_ok : forall bs, Forall (fun b => b < 256) bs -> dq_read toml_dialect (tesc bs) = Some bs.
+Proof.
+  intros bs F. unfold tesc, esc. destruct (existsb (fun c => c =? toml_replaced) bs) eqn:E.
+  - unfold escape_ref. change (34 :: flat_map esc1 bs ++ [34]) with ([34] ++ flat_map esc1 bs ++ [34]).
+    rewrite !trepl_app, trepl_flat. unfold trepl at 1 2. cbn [flat_map]. rewrite quote_not_replaced. cbn [app].
+    unfold dq_read. change (34 =? 34) with true. cbv iota.
+    rewrite (dq_str_mapped toml_dialect tesc1 no_bad toml_table bs []); [reflexivity|].
+    eapply Forall_impl; [|exact F]. intros b H. split; [assumption | reflexivity].
+  - unfold dq_read, escape_ref. change (34 =? 34) with true. cbv iota.
+    rewrite (dq_str_mapped toml_dialect esc1 toml_bad toml_table_json bs []); [reflexivity|].
+    rewrite Forall_forall in *. intros b Hb. split; [apply F; assumption|].
+    unfold toml_bad. destruct (b =? toml_replaced) eqn:Eb; [|reflexivity].
+    assert (existsb (fun c => c =? toml_replaced) bs = true) by (apply existsb_exists; eauto). congruence.
+Qed.
 
 Lemma p_python_literal : forall bs, Forall (fun b => b < 256) bs ->
   exists out, escape bs = Some out /\ dq_read python_dialect out = Some bs.
